@@ -481,15 +481,14 @@ func (a *errAnalysis) nilReturnOnFailure(fn *ssa.Function, ev ssa.Value, fl *err
 					}
 				}
 				// classification: errors.Is / errors.As on this error ends the obligation on the true edge
-				v, trueIdx, ok := ifCond(blk)
+				classify := func(f *types.Func, args []ssa.Value) bool {
+					return (isFunc(f, "errors", "", "Is") || isFunc(f, "errors", "", "As")) && len(args) > 0 && fl.derived[args[0]]
+				}
 				for i, s := range blk.Succs {
-					if ok {
-						if c, isCall := v.(*ssa.Call); isCall {
-							f := calleeFunc(c)
-							if (isFunc(f, "errors", "", "Is") || isFunc(f, "errors", "", "As")) && len(c.Call.Args) > 0 && fl.derived[c.Call.Args[0]] && i == trueIdx {
-								continue
-							}
-						}
+					if anyEdgeFact(blk, i, func(v ssa.Value, trueIdx int) bool {
+						return i == trueIdx && trueImpliesCall(v, classify, 0)
+					}) {
+						continue
 					}
 					dfs(s)
 				}
